@@ -64,6 +64,16 @@ var commonAssume = []string{
 }
 
 var props = map[string]*propCfg{
+	"C15": {
+		Title:    "follow mode delivers every appended byte exactly once, in order",
+		Quick:    tierCfg{Runs: 6000, Chunk: 200, DetRuns: 48, ShrinkSec: 60},
+		Thorough: tierCfg{Runs: 500000, Chunk: 2500, DetRuns: 256, ShrinkSec: 240},
+		Rule: "one evaluation = one simulated run of followreader.New(path, reopen, poll) (real notify.go/poller.go on real scratch files through the fs seam, fsnotify stubbed, poll delay on the fake clock) read by a simulated reader with drawn buffer sizes and latencies, against a simulated writer executing a drawn history of 1-12 operations over {append 1-40 unique bytes (sometimes split in two writes), pause 1ms-3s, remove-after-drain, re-create(+append)} x {notify, poll} x {reopen} x {tail}; odd-indexed runs add short reads and read latencies on the followed file; " +
+			"distinct_nontrivial = distinct schedule hashes among runs with >= 1 appended byte and >= 2 goroutines runnable at >= 1 decision",
+		Real:  []string{"pkg/followreader (notify.go, poller.go)", "regular files of the kernel (append, unlink-while-open, re-create)"},
+		Stubs: []string{"github.com/fsnotify/fsnotify + inotify (stub: FIFO kernel queue, adjacent-identical coalescing, ignore-if-file-gone, unbuffered Events)", "goroutine scheduling (tape)", "clock (synctest fake clock)", "short reads / read latency (fs seam)"},
+		Assume: []string{"the fsnotify stub is faithful to fsnotify v1.4.9 on inotify for create/write/remove on one watched directory: FIFO, no loss below queue overflow, coalescing of an event identical to the newest unread one, non-remove events dropped when the file is gone at processing time"},
+	},
 	"C05": {
 		Title:    "race-free, atomic render, terminates, final render complete",
 		Quick:    tierCfg{Runs: 4000, Chunk: 125, RaceRuns: 480, DetRuns: 48, ShrinkSec: 60},
